@@ -172,6 +172,9 @@ PROPS['C05']['extra_theorems'] = {'GodiProofs.Props.C05b': ['Godi.Props.C05b.' +
 # container clause of C06: the sorted order, translated to registrations, is an order the creation loop succeeds with
 PROPS['C06']['extra_theorems'] = {'GodiProofs.Props.C06b': ['Godi.Props.C06b.' + n for n in (
     'sorted_order_is_a_creation_order', 'build_succeeds_with_the_order_the_sort_returns')]}
+# C08, positive form end to end: Build succeeds with its own order and every registered service then resolves
+PROPS['C08']['extra_theorems'] = {'GodiProofs.Props.C06b': ['Godi.Props.C06b.' + n for n in (
+    'build_succeeds_with_the_order_the_sort_returns', 'built_provider_resolves_every_service')]}
 for _p in ('C19', 'C06'):
     PROPS[_p]['streams'] = PROPS[_p]['streams'] + [GRAPH_WITNESS_STREAM]
 # the concurrent clauses of the container properties: the schedule-forced stream (M6 replays the same schedule)
